@@ -152,6 +152,31 @@ def run(R):
         if not ok:
             R.viol("C10.cleanup.which", "cleanup-range", "clean-up must remove exactly records_by_distance.range(responsible_distance..)", cl, cl.lines[0])
         R.inst("C10.cleanup.which", "K7 table agreement", "clean-up removes records_by_distance.range(r..)", len(rr), ok)
+    # ... and runs only on its own trigger: records leave the store through the capacity decision of a put (prune) or through the
+    # periodic clean-up command, never as a side effect of another command (a refused put must leave the held set unchanged)
+    import tables as T
+    hlc = R.body("C10.cleanup.who", HLC)
+    if hlc is not None:
+        prep(hlc)
+        arms, _ = T.arm_targets(F, hlc, LSC, min_frac=0.5)
+        g_h = cfg_of(hlc)
+        API_CLEAN = "ant_networking::record_store_api::UnifiedRecordStore::cleanup_irrelevant_records"
+        blocks = set(CallSink(API_CLEAN, CLEAN).blocks(hlc))
+        arm = "TriggerIrrelevantRecordCleanup"
+        region = g_h.reach(tuple(arms.get(arm, ()))) if arms else set()
+        others = set()
+        for a, st in (arms or {}).items():
+            if a != arm:
+                others |= g_h.reach(tuple(st))
+        okw = bool(arms) and bool(blocks) and blocks <= region and not (blocks & others)
+        if not okw:
+            R.viol("C10.cleanup.who", "cleanup-elsewhere", "cleanup_irrelevant_records is not confined to the TriggerIrrelevantRecordCleanup arm of handle_local_cmd: "
+                   "another command (a refused put, say) can drop held records", hlc, hlc.lines[0])
+        R.inst("C10.cleanup.who", "K4 gate", "clean-up ↔ TriggerIrrelevantRecordCleanup arm only", len(blocks), okw)
+    R.who_may_call("C10.cleanup.callers", [CLEAN], ["ant_networking::record_store_api::UnifiedRecordStore::cleanup_irrelevant_records"], floor=1,
+                   descr="NodeRecordStore::cleanup_irrelevant_records is reached only through the store API wrapper")
+    R.who_may_call("C10.cleanup.callers.api", ["ant_networking::record_store_api::UnifiedRecordStore::cleanup_irrelevant_records"], [HLC], floor=1,
+                   descr="the clean-up is requested only by handle_local_cmd")
     wi = R.body("C10.within", WITHIN)
     if wi is not None:
         prep(wi)
